@@ -1,3 +1,3 @@
 import Driver.Loop
-/- stub: no executable model for C06 yet -/
-def main : IO UInt32 := CelerVerif.runDriver (fun (s : Unit) _ => (s, "bad-op")) ()
+import CelerVerif.Model.ReindexDriver
+def main : IO UInt32 := CelerVerif.runDriver CelerVerif.Reindex.driverStep ()
